@@ -1,4 +1,4 @@
-//@@ unit c08_cutpoint properties=C08
+//@@ unit c08_cutpoint properties=C08 bounded=cutpoint_full.tail_and_full_read_paths_agree_on_the_cut
 #![allow(unused_imports, dead_code, unused_variables, unused_mut)]
 use vstd::prelude::*;
 use vstd::std_specs::iter::IteratorSpec;
@@ -60,6 +60,99 @@ pub open spec fn cut_after(msgs: Seq<(u64, String)>, head_seq: u64, idx: int) ->
 //@@ tail
     proof {
         assert(from_seq == cut_after(message_events@, head_seq, anchor_idx as int));   // [cutpoint_tail.cut_is_frame_before_next_message_or_head]
+    }
+//@@ end
+
+// ---- full-replay path: the same cut, computed from the whole event sequence ------------------------------------
+#[verifier::external_body] pub fn vfmt() -> String { unimplemented!() }       // R9
+pub open spec fn is_msg(e: Event) -> bool { e.kind is ContinuityMessageAppended }
+pub open spec fn is_anchor_at(ev: Seq<Event>, a: int, id: Seq<char>) -> bool {
+    0 <= a < ev.len() && is_msg(ev[a]) && ev[a].id@ == id && forall|j: int| 0 <= j < a ==> !(is_msg(#[trigger] ev[j]) && ev[j].id@ == id)
+}
+// the first message frame after position a (or ev.len() when there is none)
+pub open spec fn is_next_msg(ev: Seq<Event>, a: int, nx: int) -> bool {
+    a < nx <= ev.len() && (nx < ev.len() ==> is_msg(ev[nx])) && forall|j: int| a < j < nx ==> !is_msg(#[trigger] ev[j])
+}
+pub open spec fn sat_sub1(x: u64) -> u64 { if x >= 1 { (x - 1) as u64 } else { 0 } }
+pub open spec fn max_u64(a: u64, b: u64) -> u64 { if a >= b { a } else { b } }
+
+// index of the first message frame with that id among ev[..n], or -1
+pub open spec fn anchor_idx(ev: Seq<Event>, n: int, id: Seq<char>) -> int
+    decreases n
+{
+    if n <= 0 { -1 } else {
+        let r = anchor_idx(ev, n - 1, id);
+        if r >= 0 { r } else if is_msg(ev[n - 1]) && ev[n - 1].id@ == id { n - 1 } else { -1 }
+    }
+}
+pub proof fn lemma_anchor_idx(ev: Seq<Event>, n: int, id: Seq<char>)
+    requires 0 <= n <= ev.len(),
+    ensures
+        -1 <= anchor_idx(ev, n, id) < n,
+        anchor_idx(ev, n, id) >= 0 ==> is_anchor_at(ev, anchor_idx(ev, n, id), id),
+        anchor_idx(ev, n, id) < 0 ==> forall|j: int| 0 <= j < n ==> !(is_msg(#[trigger] ev[j]) && ev[j].id@ == id),
+    decreases n
+{
+    if n > 0 { lemma_anchor_idx(ev, n - 1, id); }
+}
+pub proof fn lemma_anchor_stable(ev: Seq<Event>, n: int, m: int, id: Seq<char>)
+    requires 0 <= n <= m <= ev.len(), anchor_idx(ev, n, id) >= 0,
+    ensures anchor_idx(ev, m, id) == anchor_idx(ev, n, id),
+    decreases m - n
+{
+    if n < m { lemma_anchor_stable(ev, n, m - 1, id); }
+}
+
+//@@ fn crates/ripd/src/continuities.rs resolve_context_compile_cutpoint_full rules=R9 r7=0
+//@@ sig
+    ensures
+        // Err exactly when the triggering message is not in the thread
+        ret is Err ==> forall|j: int| 0 <= j < continuity_events@.len() ==> !(is_msg(#[trigger] continuity_events@[j]) && continuity_events@[j].id@ == message_id@),     // [cutpoint_full.err_only_if_anchor_absent]
+        // the cut is the last frame before the next message after the triggering message (or the head), never before the message itself
+        ret matches Ok(t) ==> exists|a: int, nx: int| #![auto] is_anchor_at(continuity_events@, a, message_id@) && is_next_msg(continuity_events@, a, nx)
+            && t.0 == max_u64(if nx < continuity_events@.len() { sat_sub1(continuity_events@[nx].seq) } else { continuity_events@[continuity_events@.len() - 1].seq }, continuity_events@[a].seq)
+            && t.1 is Some && t.1->Some_0@ == message_id@,                                                                                                                  // [cutpoint_full.cut_is_frame_before_next_message_or_head]
+//@@ closure 0
+    -> (r: u64) ensures r == event.seq
+//@@ entry
+    broadcast use group_string_eq;
+//@@ loop 0
+    invariant_except_break
+        next_message_seq is None,
+        message_seq is Some ==> forall|j: int| anchor_idx(continuity_events@, __i0 as int, message_id@) < j < __i0 ==> !is_msg(#[trigger] continuity_events@[j]),
+    invariant
+        __s0@ == continuity_events@,
+        __i0 <= __s0@.len(),
+        message_seq is Some == (anchor_idx(continuity_events@, __i0 as int, message_id@) >= 0),
+        message_seq matches Some(ms) ==> ms == continuity_events@[anchor_idx(continuity_events@, __i0 as int, message_id@)].seq,      // [cutpoint_full.loop.anchor_is_first_message_with_the_id]
+    ensures
+        message_seq is Some == (anchor_idx(continuity_events@, continuity_events@.len() as int, message_id@) >= 0),
+        message_seq matches Some(ms) ==> ms == continuity_events@[anchor_idx(continuity_events@, continuity_events@.len() as int, message_id@)].seq,
+        message_seq is None ==> next_message_seq is None,
+        (message_seq is Some && next_message_seq is None) ==> forall|j: int| anchor_idx(continuity_events@, continuity_events@.len() as int, message_id@) < j < continuity_events@.len() ==> !is_msg(#[trigger] continuity_events@[j]),
+        (message_seq is Some && next_message_seq is Some) ==> (1 <= __i0 <= continuity_events@.len()
+            && anchor_idx(continuity_events@, continuity_events@.len() as int, message_id@) < __i0 - 1
+            && is_msg(continuity_events@[__i0 - 1]) && next_message_seq->Some_0 == continuity_events@[__i0 - 1].seq
+            && forall|j: int| anchor_idx(continuity_events@, continuity_events@.len() as int, message_id@) < j < __i0 - 1 ==> !is_msg(#[trigger] continuity_events@[j])),
+    decreases __s0@.len() - __i0
+//@@ loopbody 0
+    broadcast use group_string_eq;
+    proof {
+        lemma_anchor_idx(continuity_events@, __i0 as int - 1, message_id@);
+        lemma_anchor_idx(continuity_events@, __i0 as int, message_id@);
+    }
+//@@ before break 0
+    proof { lemma_anchor_stable(continuity_events@, __i0 as int, continuity_events@.len() as int, message_id@); lemma_anchor_stable(continuity_events@, __i0 as int - 1, __i0 as int, message_id@); }
+//@@ afterloop 0
+    proof {
+        let ev = continuity_events@;
+        lemma_anchor_idx(ev, ev.len() as int, message_id@);
+        if message_seq is Some {
+            let a = anchor_idx(ev, ev.len() as int, message_id@);
+            let nx: int = if next_message_seq is Some { __i0 as int - 1 } else { ev.len() as int };
+            assert(is_anchor_at(ev, a, message_id@));
+            assert(is_next_msg(ev, a, nx));
+        }
     }
 //@@ end
 
